@@ -30,4 +30,23 @@ CLAIMS['C09'] = {
     'note': _NOTE,
 }
 
+CLAIMS['C10'] = {
+    'text': 'Queue: window rule (no suspension between popping an item and returning it, on '
+            'every path incl. the exceptional exits of every suspension site), domination of '
+            'append by `not closed` and of every receive-side StreamClosed by evidence of an '
+            'empty buffer, wake-up pairing inside one atomic block, FIFO discipline of buffer '
+            'and waiter list, the whole receive under the read mutex, iteration yields exactly '
+            'the received values. Per-consumer value sequences are runtime histories and are '
+            'not decided.',
+    'note': _NOTE,
+}
+CLAIMS['C11'] = {
+    'text': 'Channel: consumer-buffer registration paired with deregistration on every exit '
+            '(all signal classes at every suspension/yield), broadcast loop over all buffers '
+            'plus wake-all in one atomic block under `not closed`, the order of the '
+            'empty/closed tests on every leaving path, pop->yield window, FIFO buffer '
+            'operations. Message sequences as values are not decided.',
+    'note': _NOTE,
+}
+
 NOT_APPLICABLE = {}
